@@ -24,6 +24,9 @@ RULE = ('Stars of k=2..4 (thorough: 5) spokes on a hub in EVERY orientation (2^k
 ASSUMPTIONS = ['report parser keyed on the E/J/number first token of each row of the block of each object']
 
 
+RULE = RULE + " Extras include junctions just above the ground plane (higher than 1/1000 of the shortest segment, lower than 1/1000 of the long wire's segments)."
+
+
 def bounds(tier, seed):
     return dict(star_k=4 if tier == 'quick' else 5, graph_wires=3 if tier == 'quick' else 4, variant=geom.variant(seed))
 
